@@ -9,6 +9,7 @@ import (
 
 	"golang.org/x/tools/go/ssa"
 
+	"verif/wscheck/internal/fold"
 	"verif/wscheck/internal/load"
 )
 
@@ -660,7 +661,24 @@ func indexResultRules(c *Ctx, prop string) {
 			return false
 		}
 		p := f.Package().Pkg.Path()
-		return (p == "bytes" || p == "strings") && (strings.HasPrefix(f.Name(), "Index") || strings.HasPrefix(f.Name(), "LastIndex"))
+		if (p == "bytes" || p == "strings") && (strings.HasPrefix(f.Name(), "Index") || strings.HasPrefix(f.Name(), "LastIndex")) {
+			return true
+		}
+		// a search function of the module itself (an "...Index" by its frozen name): one int result, -1 on some path (headEndIndex)
+		if load.InModule(f) && f.Blocks != nil && f.Signature.Results().Len() == 1 && strings.Contains(strings.ToLower(fold.CanonFuncName(f)), "index") {
+			if b, ok := f.Signature.Results().At(0).Type().Underlying().(*types.Basic); ok && b.Kind() == types.Int {
+				for _, bl := range f.Blocks {
+					for _, in := range bl.Instrs {
+						if ret, ok := in.(*ssa.Return); ok && len(ret.Results) == 1 {
+							if k, ok := ret.Results[0].(*ssa.Const); ok && k.Value != nil && k.Int64() == -1 {
+								return true
+							}
+						}
+					}
+				}
+			}
+		}
+		return false
 	}
 	n := 0
 	for _, fn := range c.P.AllModuleFuncs() {
